@@ -2,74 +2,123 @@
 (***************************************************************************)
 (* Exhaustive design check for C07.  State machine                         *)
 (*   User (Grow: TLC grows every architecture of the bounded grammar node  *)
-(*         by node: conv / depthwise / linear with bias on/off, BatchNorm   *)
-(*         on/off, user-placed PIT layer on/off, excluded on/off, layer    *)
-(*         reuse, SuperNet choice blocks, relu, pooling, flatten, residual *)
+(*         by node: conv / depthwise / linear / linear-on-3-D with a       *)
+(*         configuration preset (padding kind and mode, dilation, stride,  *)
+(*         groups), bias on/off, BatchNorm preset (none / default / no     *)
+(*         affine / no running stats / other eps+momentum), user-placed    *)
+(*         PIT layer, excluded layer, layer reuse, SuperNet blocks with    *)
+(*         user-set options, relu, dropout, pooling, flatten, residual     *)
 (*         add; one- or two-input forward)                                 *)
-(*   -> Convert(method, mode found, fold_bn, autoconvert)                  *)
-(*   -> [SetMode(b)] -> Export.                                            *)
+(*   -> Conv(method, mode found, fold_bn, autoconvert)                     *)
+(*   -> any history (length <= MaxHist) of Train / Eval / Export /         *)
+(*      Summary / Cost / Forward on the wrapper.                           *)
 (* Invariants = the clauses of C07 on the object-level model of ImportLife.*)
 (***************************************************************************)
 EXTENDS ImportLife, TLC
 
-CONSTANTS Impl,            \* "ref" | "asis"
+CONSTANTS Impl,            \* "ref" | "asis" | sanity variants "droppm" | "snreset" | "stalemode"
           MaxNodes, Widths, Dims, C0, Sp0,
           Methods,         \* subset of {"PIT", "SN", "MPS"}
           Twos,            \* subset of {"no", "add", "cat"}
-          AllowPl, AllowExcl, AllowReuse,
-          AllowFindings    \* FALSE: Convert is only taken on SupportedImport(arch, cfg)
+          ConvVars,        \* subset of the configuration presets of ConvPreset
+          BnVars,          \* subset of {"dflt", "noaff", "notrs", "epsmom"}  ("none" is always offered)
+          SnoVars,         \* subset of 1..4: option presets of SuperNet blocks
+          AllowPl, AllowExcl, AllowReuse, AllowLin3, AllowDrop,
+          AllowFindings,   \* FALSE: Conv is only taken on SupportedImport(arch, cfg)
+          MaxHist          \* length of the call history after the conversion
 
-VARIABLES arch, method, phase, cfg, cv, wmode, smode, exported
+VARIABLES arch, method, phase, cfg, cv, wmode, smode, last, setseen, hist, exported
 
-vars == <<arch, method, phase, cfg, cv, wmode, smode, exported>>
+vars == <<arch, method, phase, cfg, cv, wmode, smode, last, setseen, hist, exported>>
+\* fingerprint for the large configurations: the history only through its length
+ViewNoHist == <<arch, method, phase, cfg, cv, wmode, smode, last, setseen, Len(hist), exported>>
 
 NoCfg == [method |-> "none", mode |-> "none", fold |-> FALSE, auto |-> FALSE]
+NoSno == [hard |-> FALSE, gum |-> FALSE, temp |-> 10, fav |-> 0]
 
-Node(dm, op, ins, out, dw, bias, bn, pl, excl, reuse, sn, kind) ==
-    [op |-> op, ins |-> ins, out |-> out, k |-> IF op = "conv" THEN (IF Len(sn) > 0 THEN sn[1].k ELSE 3) ELSE 1,
-     d |-> 1, s |-> 1, bias |-> bias, bn |-> bn, dw |-> dw, excl |-> excl, causal |-> (dm = 1 /\ op = "conv" /\ Len(sn) = 0),
-     reuse |-> reuse, pl |-> pl, sn |-> sn, eps |-> 0, mom |-> 0, kind |-> kind]
+ConvPreset(name, dm) ==
+    CASE name = "dflt"         -> [k |-> 3, d |-> 1, s |-> 1, grp |-> 1, pad |-> IF dm = 1 THEN "causal" ELSE "int", pm |-> "zeros"]
+      [] name = "same_refl"    -> [k |-> 3, d |-> 1, s |-> 1, grp |-> 1, pad |-> "same", pm |-> "reflect"]
+      [] name = "same_circ_d2" -> [k |-> 3, d |-> 2, s |-> 1, grp |-> 1, pad |-> "same", pm |-> "circular"]
+      [] name = "int_repl_s2"  -> [k |-> 3, d |-> 1, s |-> 2, grp |-> 1, pad |-> "int", pm |-> "replicate"]
+      [] name = "valid"        -> [k |-> 3, d |-> 1, s |-> 1, grp |-> 1, pad |-> "valid", pm |-> "zeros"]
+      [] name = "grp2"         -> [k |-> 3, d |-> 1, s |-> 1, grp |-> 2, pad |-> "int", pm |-> "zeros"]
+BnPreset(name) ==
+    CASE name = "none"   -> [bn |-> FALSE, eps |-> 0, mom |-> 0, aff |-> TRUE, trs |-> TRUE]
+      [] name = "dflt"   -> [bn |-> TRUE, eps |-> 0, mom |-> 0, aff |-> TRUE, trs |-> TRUE]
+      [] name = "noaff"  -> [bn |-> TRUE, eps |-> 0, mom |-> 0, aff |-> FALSE, trs |-> TRUE]
+      [] name = "notrs"  -> [bn |-> TRUE, eps |-> 0, mom |-> 0, aff |-> TRUE, trs |-> FALSE]
+      [] name = "epsmom" -> [bn |-> TRUE, eps |-> 1, mom |-> 1, aff |-> TRUE, trs |-> TRUE]
+SnoPreset(i) ==
+    CASE i = 1 -> NoSno
+      [] i = 2 -> [hard |-> TRUE, gum |-> FALSE, temp |-> 10, fav |-> 0]
+      [] i = 3 -> [hard |-> FALSE, gum |-> TRUE, temp |-> 5, fav |-> 2]
+      [] i = 4 -> [hard |-> FALSE, gum |-> FALSE, temp |-> 20, fav |-> 1]
+
+Node(op, ins, out, dw, cp, bias, bp, pl, excl, reuse, sn, sno, kind) ==
+    [op |-> op, ins |-> ins, out |-> out, k |-> cp.k, d |-> cp.d, s |-> cp.s, dw |-> dw, grp |-> cp.grp, bias |-> bias,
+     pad |-> cp.pad, pm |-> cp.pm, bn |-> bp.bn, eps |-> bp.eps, mom |-> bp.mom, aff |-> bp.aff, trs |-> bp.trs,
+     excl |-> excl, reuse |-> reuse, pl |-> pl, sn |-> sn, sno |-> sno, kind |-> kind]
+NoConv == [k |-> 1, d |-> 1, s |-> 1, grp |-> 1, pad |-> "same", pm |-> "zeros"]
+Plain(op, ins, kind) == Node(op, ins, 0, FALSE, NoConv, TRUE, BnPreset("none"), FALSE, FALSE, 0, <<>>, NoSno, kind)
 
 Init == /\ \E tw \in Twos, dm \in Dims :
              arch = [dim |-> dm, c0 |-> C0, sp |-> Sp0, two |-> tw, ca |-> IF tw = "cat" THEN 1 ELSE 0, nodes |-> <<>>]
         /\ method \in Methods
-        /\ phase = "grow" /\ cfg = NoCfg /\ cv = <<>> /\ wmode = FALSE /\ smode = FALSE /\ exported = <<>>
+        /\ phase = "grow" /\ cfg = NoCfg /\ cv = <<>> /\ wmode = FALSE /\ smode = FALSE /\ last = FALSE
+        /\ setseen = FALSE /\ hist = <<>> /\ exported = <<>>
 
 T(a)  == 0..N(a)
 NF(a) == {t \in T(a) : ~IsFlat(a, t)}
 Compatible(a, p, q) == Ch(a, p) = Ch(a, q) /\ Sp(a, p) = Sp(a, q) /\ IsFlat(a, p) = IsFlat(a, q)
 Pl(m)   == IF m = "PIT" /\ AllowPl THEN BOOLEAN ELSE {FALSE}
 Ex(m)   == IF m # "SN" /\ AllowExcl THEN BOOLEAN ELSE {FALSE}
+PlEx(m) == {x \in Pl(m) \X Ex(m) : ~(x[1] /\ x[2])}
+Bns     == {"none"} \cup BnVars
 SNVariants == { << [k |-> 3, bn |-> TRUE], [k |-> 1, bn |-> FALSE] >>,
                 << [k |-> 1, bn |-> FALSE], [k |-> 3, bn |-> FALSE], [k |-> 3, bn |-> TRUE] >> }
+\* a configuration preset fits on producer tensor p (torch accepts it and the shapes stay positive)
+Fits(a, p, name, w, dwc) ==
+    LET cp == ConvPreset(name, a.dim) IN
+    /\ (cp.pad \in {"same", "int"} /\ cp.pm # "zeros" => cp.d * (cp.k \div 2) < Sp(a, p))
+    /\ (cp.pad = "valid" => Sp(a, p) - cp.d * (cp.k - 1) >= 1)
+    /\ (cp.pad = "causal" => a.dim = 1)
+    /\ (cp.grp > 1 => ~dwc /\ Ch(a, p) >= 2 * cp.grp /\ Ch(a, p) % cp.grp = 0 /\ w % cp.grp = 0)
 \* layer objects that may be invoked a second time: plain (non-SuperNet) conv / linear owners
-Reusable(a) == {m \in Layers(a) : Nd(a, m).reuse = 0 /\ ~IsSN(a, m)}
+Reusable(a) == {m \in Layers(a) : Nd(a, m).reuse = 0 /\ ~IsSN(a, m) /\ Op(a, m) # "lin3"}
 
-PlEx(m) == {x \in Pl(m) \X Ex(m) : ~(x[1] /\ x[2])}
+FitP(a, cn, w, dwc) == {p \in NF(a) : Fits(a, p, cn, w, dwc)}
 Candidates(a, m) ==
-    {Node(a.dim, "conv", <<p>>, w, FALSE, b, bn, px[1], px[2], 0, <<>>, "") :
-        p \in NF(a), w \in Widths, b \in BOOLEAN, bn \in BOOLEAN, px \in PlEx(m)}
-    \cup {Node(a.dim, "conv", <<p>>, 0, TRUE, b, bn, pl, FALSE, 0, <<>>, "") :
-        p \in NF(a), b \in BOOLEAN, bn \in BOOLEAN, pl \in Pl(m)}
-    \cup {Node(a.dim, "lin", <<p>>, w, FALSE, b, bn, px[1], px[2], 0, <<>>, "") :
-        p \in T(a) \ NF(a), w \in Widths, b \in BOOLEAN, bn \in BOOLEAN, px \in PlEx(m)}
-    \cup (IF m = "SN" THEN {Node(a.dim, "conv", <<p>>, w, FALSE, b, FALSE, FALSE, FALSE, 0, sn, "") :
-                               p \in NF(a), w \in Widths, b \in BOOLEAN, sn \in SNVariants}
+    UNION {UNION {{Node("conv", <<p>>, w, FALSE, ConvPreset(cn, a.dim), b, BnPreset(bn), px[1], px[2], 0, <<>>, NoSno, "") :
+                      p \in FitP(a, cn, w, FALSE), b \in BOOLEAN, bn \in Bns,
+                      px \in {x \in PlEx(m) : ~(x[1] /\ ConvPreset(cn, a.dim).grp > 1)}} : w \in Widths} : cn \in ConvVars}
+    \cup UNION {{Node("conv", <<p>>, 0, TRUE, ConvPreset(cn, a.dim), b, BnPreset(bn), pl, FALSE, 0, <<>>, NoSno, "") :
+                      p \in FitP(a, cn, 0, TRUE), b \in BOOLEAN, bn \in Bns, pl \in Pl(m)} : cn \in ConvVars \ {"grp2"}}
+    \cup {Node("lin", <<p>>, w, FALSE, NoConv, b, BnPreset(bn), px[1], px[2], 0, <<>>, NoSno, "") :
+        p \in T(a) \ NF(a), w \in Widths, b \in BOOLEAN, bn \in Bns, px \in PlEx(m)}
+    \cup (IF AllowLin3 /\ a.dim = 1
+          THEN {Node("lin3", <<p>>, w, FALSE, NoConv, b, BnPreset("none"), FALSE, ex, 0, <<>>, NoSno, "") :
+                   p \in NF(a), w \in Widths, b \in BOOLEAN, ex \in Ex(m)}
+          ELSE {})
+    \cup (IF m = "SN" THEN {Node("conv", <<p>>, w, FALSE, [NoConv EXCEPT !.k = sn[1].k, !.pad = IF a.dim = 1 THEN "same" ELSE "int"],
+                                 b, BnPreset("none"), FALSE, FALSE, 0, sn, SnoPreset(so), "") :
+                               p \in NF(a), w \in Widths, b \in BOOLEAN, sn \in SNVariants,
+                               so \in SnoVars}
           ELSE {})
     \cup (IF AllowReuse
           THEN UNION {{[Nd(a, o) EXCEPT !.ins = <<p>>, !.reuse = o] :
                           p \in {t \in T(a) : Compatible(a, t, In1(a, o)) /\ t # In1(a, o)}} : o \in Reusable(a)}
           ELSE {})
-    \cup {Node(a.dim, "relu", <<p>>, 0, FALSE, FALSE, FALSE, FALSE, FALSE, 0, <<>>, "") : p \in T(a) \ {0}}
-    \cup {Node(a.dim, "pool", <<p>>, 0, FALSE, FALSE, FALSE, FALSE, FALSE, 0, <<>>, kd) :
-            p \in {t \in NF(a) \ {0} : Sp(a, t) >= 2}, kd \in {"avg", "max"}}
-    \cup {Node(a.dim, "flat", <<p>>, 0, FALSE, FALSE, FALSE, FALSE, FALSE, 0, <<>>, "") : p \in NF(a)}
-    \cup {Node(a.dim, "add", <<pq[1], pq[2]>>, 0, FALSE, FALSE, FALSE, FALSE, FALSE, 0, <<>>, "") :
+    \cup {Plain("relu", <<p>>, "") : p \in T(a) \ {0}}
+    \cup (IF AllowDrop THEN {Plain("drop", <<p>>, "") : p \in T(a) \ {0}} ELSE {})
+    \cup {Plain("pool", <<p>>, kd) : p \in {t \in NF(a) \ {0} : Sp(a, t) >= 2}, kd \in {"avg", "max"}}
+    \cup {Plain("flat", <<p>>, "") : p \in NF(a)}
+    \cup {Plain("add", <<pq[1], pq[2]>>, "") :
             pq \in {x \in T(a) \X T(a) : x[1] < x[2] /\ Compatible(a, x[1], x[2])}}
 
 Grow == /\ phase = "grow" /\ N(arch) < MaxNodes
         /\ \E nd \in Candidates(arch, method) : arch' = [arch EXCEPT !.nodes = Append(@, nd)]
-        /\ UNCHANGED <<method, phase, cfg, cv, wmode, smode, exported>>
+        /\ UNCHANGED <<method, phase, cfg, cv, wmode, smode, last, setseen, hist, exported>>
 
 Used(a, t) == \E n \in 1..N(a) : t \in SeqSet(Ins(a, n))
 Sealable(a) == /\ N(a) >= 1
@@ -83,52 +132,72 @@ Cfgs(m) == IF m = "PIT" THEN {[method |-> m, mode |-> md, fold |-> fo, auto |-> 
 
 Conv == /\ phase = "grow" /\ Sealable(arch)
         /\ \E c \in Cfgs(method) :
+              /\ ~Rejected(arch, c)                              \* plinio refuses these with a documented error
               /\ AllowFindings \/ SupportedImport(arch, c)
               /\ LET r == Convert(Impl, arch, c) IN
                     /\ cfg' = c
                     /\ cv' = r
                     /\ wmode' = r.wtrain
                     /\ smode' = r.strain
+                    /\ last' = (c.mode = "train")
         /\ phase' = "converted"
-        /\ UNCHANGED <<arch, method, exported>>
+        /\ UNCHANGED <<arch, method, setseen, hist, exported>>
 
-SetMode == /\ phase = "converted"
-           /\ wmode' = ~wmode /\ smode' = ~wmode          \* wrapper.train(b) sets the wrapper and everything below it
-           /\ phase' = "moded"
-           /\ UNCHANGED <<arch, method, cfg, cv, exported>>
+CanAct == phase = "converted" /\ cv.ok /\ Len(hist) < MaxHist
 
-Export == /\ phase \in {"converted", "moded"} /\ method \in {"PIT", "SN"}
-          /\ exported' = ExportSeq(Impl, arch, cfg, cv)
-          /\ phase' = "exported"
-          /\ UNCHANGED <<arch, method, cfg, cv, wmode, smode>>
+\* wrapper.train(b) sets the wrapper and everything below it
+HSet(b) == /\ CanAct
+           /\ wmode' = b /\ smode' = b /\ last' = b /\ setseen' = TRUE
+           /\ hist' = Append(hist, IF b THEN "train" ELSE "eval")
+           /\ UNCHANGED <<arch, method, phase, cfg, cv, exported>>
+\* export(): the seed is converted in eval mode and put back into the mode it had at the call
+HExport == /\ CanAct
+           /\ exported' = IF method \in {"PIT", "SN"} THEN ExportSeq(Impl, arch, cfg, cv) ELSE exported
+           /\ smode' = IF Impl = "stalemode" THEN (cfg.mode = "train") ELSE smode
+           /\ hist' = Append(hist, "export")
+           /\ UNCHANGED <<arch, method, phase, cfg, cv, wmode, last, setseen>>
+\* observers; a forward pass is an observer in eval mode only (in training mode it updates BatchNorm statistics by design)
+HObs(what) == /\ CanAct
+              /\ (what = "forward" => ~wmode)
+              /\ hist' = Append(hist, what)
+              /\ UNCHANGED <<arch, method, phase, cfg, cv, wmode, smode, last, setseen, exported>>
 
-Next == Grow \/ Conv \/ SetMode \/ Export
+Next == Grow \/ Conv \/ HSet(TRUE) \/ HSet(FALSE) \/ HExport \/ HObs("summary") \/ HObs("cost") \/ HObs("forward")
 
 Spec == Init /\ [][Next]_vars
 \* enumeration of the scenarios only (what the harness builds for real): architectures and configurations
 SpecGC == Init /\ [][Grow \/ Conv]_vars
 
 Converted == phase # "grow"
+Live      == Converted /\ cv.ok
 Claimed   == method \in {"PIT", "SN"}
 
-\* every record refers to earlier records only, the sequence starts with the placeholders
+\* every record refers to earlier records only
 WellFormed(s) == \A i \in DOMAIN s : \A j \in DOMAIN s[i].ins : s[i].ins[j] < i /\ s[i].ins[j] >= 1
 
+(* ---- the constructor returns (as implemented it raises on the F52 / F53 topologies) ---- *)
+InvConvertOk   == Converted => cv.ok
 (* ---- C07: "does not change the function it computes" ---- *)
-InvFnPreserved == Converted /\ Claimed => FnPreserved(arch, cv)
+InvFnPreserved == Live /\ Claimed => FnPreserved(arch, cv)
+InvImportedConfig == Live /\ Claimed => ImportedConfig(arch, cfg, cv)
 (* ---- C07: "do not alter the parameters or outputs of the model object the user passed in" ---- *)
-InvUserParams  == Converted /\ Claimed => UserParamsKept(arch, cfg, cv)
-InvUserFn      == Converted /\ Claimed => UserFnKept(arch, cv)
-(* ---- C07: "PIT and MPS conversion keep the training/eval mode they found" ---- *)
-InvModeKept    == phase = "converted" /\ method \in {"PIT", "MPS"} => ModeKept(cfg, cv) /\ wmode = cv.wtrain /\ smode = cv.strain
-(* ---- C07: "exporting immediately returns a network with the original architecture" ---- *)
-InvExportIso   == phase = "exported" =>
-                     exported = ExpSeq(arch, cfg, IF method = "SN" THEN FirstChoice(arch) ELSE NoChoice(arch))
+InvUserParams  == Live /\ Claimed => UserParamsKept(arch, cfg, cv)
+InvUserFn      == Live /\ Claimed => UserFnKept(arch, cv)
+InvUserOpts    == Live /\ Claimed => UserOptsKept(arch, cv)
+(* ---- C07: "PIT and MPS conversion keep the training/eval mode they found" ... ---- *)
+InvModeKept    == Live /\ hist = <<>> /\ method \in {"PIT", "MPS"} => ModeKept(cfg, cv) /\ wmode = cv.wtrain /\ smode = cv.strain
+(* ... and after any history every flag equals the last mode the user set (SuperNet: from the first explicit call on) ---- *)
+InvFlagsLast   == Live /\ (setseen \/ method \in {"PIT", "MPS"}) => wmode = last /\ smode = last
+(* ---- C07: "exporting immediately returns a network with the original architecture" (whatever the history) ---- *)
+InvExportIso   == Live /\ exported # <<>> => exported = ExpSeq(arch, cfg, ExportChoice(arch, cfg))
 \* without folding and without SuperNet blocks the exported sequence is literally the original one
-InvExportLiteral == phase = "exported" /\ method = "PIT" /\ ~cfg.fold => exported = OrigSeq(arch)
+InvExportLiteral == Live /\ exported # <<>> /\ method = "PIT" /\ ~cfg.fold => exported = OrigSeq(arch)
 \* a folded BatchNorm never reappears, an unfolded one always does (count of BN records)
 BnCount(s) == Cardinality({i \in DOMAIN s : s[i].t = "bn"})
-InvBnAccount == phase = "exported" /\ method = "PIT" =>
+InvBnAccount == Live /\ exported # <<>> /\ method = "PIT" =>
                    BnCount(exported) = Cardinality({n \in Sites(arch) : OrigBn(arch)[n] /\ ~(Handled(arch, cfg, n) /\ cfg.fold)})
-InvWellFormed == phase = "exported" => WellFormed(OrigSeq(arch)) /\ WellFormed(exported)
+\* the converted graph has the layers of the original with their configuration
+InvNasConfig == Live /\ method = "PIT" => CfgOnly(Flat(arch, ExportCfg(arch, cv), ExportBias(arch, cv), cv.bnode, NoChoice(arch)))
+                                           = CfgOnly(NasSeq(arch, cfg))
+InvWellFormed == Live /\ exported # <<>> => WellFormed(OrigSeq(arch)) /\ WellFormed(exported)
 =============================================================================
